@@ -408,6 +408,7 @@ func ExecH(c HCase) (res core.Result) {
 		done, wedged, gstack := watchdog(func() {
 			defer func() {
 				if r := recover(); r != nil {
+					core.HarnessPanic(r)
 					pan = r
 					buf := make([]byte, 8192)
 					stack = string(buf[:runtime.Stack(buf, false)])
